@@ -596,7 +596,12 @@ class Interp:
     m_gt = m_after = m_above
 
     def m_below(self, n, q, a):
-        c = self._cmp(self.value(a[0]), self.value(a[1]))
+        x, y = self.value(a[0]), self.value(a[1])
+        c = self._cmp(x, y)
+        if getattr(self, "lt_accepts_equal", False):
+            # used ONLY to classify a divergence as the recorded finding KF-C01-1, never as the oracle:
+            # "equal operands are accepted", two absent operands being equal too
+            return (x is None and y is None) or (c is not None and c <= 0)
         return c is not None and c < 0
 
     m_lt = m_before = m_below
